@@ -130,6 +130,11 @@ def gen_cases(rng, tier):
         elif mode == "overlap":
             s2 = nw.translate_spec(s2, nw.center_of(s1) - nw.center_of(s2))
         cases.append(dict(c1=s1, c2=s2, meta=dict(stream="aspect", sub=mode, kinds=[k1, k2])))
+    # a small smooth collider in front of the interior of a face of a big hull / mesh (finding F-O1)
+    for i in range(150 if tier == "quick" else 1200):
+        r = nb.bigface_pair(rng)
+        if r is not None:
+            cases.append(dict(c1=r[0], c2=r[1], meta=r[2]))
     n_general = 60 if tier == "quick" else 800
     for _ in range(n_general):
         s1, s2, meta = nw.gen_pair(rng, tier)
